@@ -842,7 +842,9 @@ def analyse_lazy(facts, cls, methods):
                 elif lp and lp[0] in roots:
                     # a copy of the whole thing from another object of the class next to the flag and the sources is fine
                     ur = unwrap_all_casts(rhs) if rhs is not None else None
-                    if not (isinstance(ur, dict) and ur.get("k") == "Member" and path(ur) and path(ur)[0] != "this" and path(ur)[-1] == lp[-1]):
+                    if not (isinstance(ur, dict) and ur.get("k") == "Member" and path(ur) and path(ur)[0] != "this" and path(ur)[-1] == lp[-1]) and \
+                            not (f.get("ctor") and rhs is not None and ir.const_value(rhs) is not None):
+                        # (a constructor may give the members an initial value: the flag / key is what decides)
                         evs.append(("badstore", x))
                 elif lp and lp[0] in res["S"]:
                     evs.append(("swrite", x, lp[0]))
@@ -870,6 +872,7 @@ def analyse_lazy(facts, cls, methods):
         # de-duplicate nested member reads (m_hints.qr contains m_hints): keep the longest path per position
         last_refresh = None
         pending_s = None
+        may_be_valid = True         # on entry the flag may be set
         seen_read_nodes = set()
         for i, e in enumerate(evs):
             if e[0] in ("badflag", "badstore"):
@@ -877,11 +880,14 @@ def analyse_lazy(facts, cls, methods):
                 return res
             if e[0] == "refresh":
                 last_refresh = i
+                may_be_valid = True
             elif e[0] == "swrite":
-                pending_s = e
+                if may_be_valid:
+                    pending_s = e
                 last_refresh = None
             elif e[0] == "invalidate":
                 pending_s = None
+                may_be_valid = False      # lowered before the change is as good as after it (nothing refreshes in between)
             elif e[0] == "read":
                 node = e[1]
                 if any(id(y) in seen_read_nodes for y in walk(node)) and False:
